@@ -10,9 +10,10 @@ def is_cow(a):
 
 
 def run(prop, tier, prefixes, *, names=ALL, act_filter=None, quick_pairs=12000, thorough_pairs=None, need=("cow", "raised", "specified", "changed"),
-        rule="", assumptions=()):
+        rule="", assumptions=(), fault_pairs=(0, 0), fault_stride=(1, 1)):
     rep = common.Report(prop, tier)
-    events, res = R.collect(rep, names, tier, act_filter=act_filter, max_pairs=quick_pairs if tier != "thorough" else thorough_pairs, seed=common.seed())
+    events, res = R.collect(rep, names, tier, act_filter=act_filter, max_pairs=quick_pairs if tier != "thorough" else thorough_pairs, seed=common.seed(),
+                            fault_pairs=fault_pairs[tier == "thorough"], fault_stride=fault_stride[tier == "thorough"])
     R.report_clauses(rep, events, res, prefixes)
     distinct = len({common.canon([e["scn"], e["pre"], e["a"]]) for e in events if e["res"] != "ok" or e["recv_post"] != e["pre"] or not e["same"]})
     pick = [e for e in (events[3], events[len(events) // 2], events[-2])]
